@@ -44,6 +44,7 @@ def ofDict {κ ν} (f : κ → Json) (g : ν → Json) (d : Dict κ ν) : Json :
 def errStr : FSA.Err → String
   | .keyError => "KeyError"
   | .indexError => "IndexError"
+  | .fsaException => "FSAException"
   | .fuel => "fuel"
 
 def lift {α} (x : Except FSA.Err α) : R α :=
